@@ -1,5 +1,6 @@
 //! Correspondence harness (DESIGN §2.3): drives the real anemo code in-process (hooks on) and emits
 //! the op lines for the Lean model together with the implementation's canonical answers.
+mod codegen;
 mod fabric;
 mod net;
 mod out;
@@ -40,6 +41,7 @@ fn main() -> anyhow::Result<()> {
         "C04" => peers::run_c04(&mut run, replay.as_deref())?,
         "C05" => peers::run_c05(&mut run, replay.as_deref())?,
         "C16" => router::run_c16(&mut run, replay.as_deref())?,
+        "C17" => codegen::run_c17(&mut run)?,
         "C18" => tower::run_c18(&mut run, replay.as_deref())?,
         "C19" => tower::run_c19(&mut run)?,
         "C20" => tower::run_c20(&mut run)?,
